@@ -272,7 +272,7 @@ def run(ctx) -> None:
     # and so are the two tag parts (final / empty): each needs its entry, otherwise a group holding it is never omitted
     omittable = sorted({p for p, f in fields.items() if p in fmts and isinstance(defaults.get(f), int) and not isinstance(defaults.get(f), bool) and defaults.get(f) == 0}
                        | {p for p in ("TAG", "PYTAG") if p in fields})
-    ctx.floor("R5", "parts whose absent group reads back as zero", len(omittable), 7)
+    ctx.floor("R5", "parts whose absent group reads back as zero", len(omittable), 3)
     for p in omittable:
         ctx.check("R5", p in zero, f"part {p} (absent group reads back as zero) has a zero value",
                   f"version.PART_ZERO_VALUES lacks part '{p}'", f"a group such as `[.{p}]` is rendered even when {p} is zero: the rendering differs from the documented omission "
